@@ -6,7 +6,6 @@ import (
 	"context"
 	"time"
 
-	eth2client "github.com/attestantio/go-eth2-client"
 	"github.com/attestantio/go-eth2-client/api"
 	apiv1 "github.com/attestantio/go-eth2-client/api/v1"
 	"github.com/attestantio/go-eth2-client/spec"
@@ -14,7 +13,6 @@ import (
 	"github.com/attestantio/go-eth2-client/spec/capella"
 	"github.com/attestantio/go-eth2-client/spec/phase0"
 	"github.com/attestantio/vouch/internal/vnd"
-	"github.com/attestantio/vouch/internal/vstub"
 )
 
 // the submission kinds other than attestations and sync committee messages
@@ -69,14 +67,7 @@ func VerifC08_Kinds() {
 	vnd.Assume(timeout >= 2 && timeout <= 60000) // virtual nanoseconds
 	const n = 2
 	nodes := make([]*c08KNode, n)
-	s := &Service{clientMonitor: vstub.ClientMonitor{}, timeout: timeout, processConcurrency: int64(vnd.IntRange("process-concurrency", n, 3)),
-		aggregateAttestationsSubmitters:       map[string]eth2client.AggregateAttestationsSubmitter{},
-		proposalSubmitters:                    map[string]eth2client.ProposalSubmitter{},
-		beaconCommitteeSubscriptionSubmitters: map[string]eth2client.BeaconCommitteeSubscriptionsSubmitter{},
-		proposalPreparationsSubmitters:        map[string]eth2client.ProposalPreparationsSubmitter{},
-		syncCommitteeContributionsSubmitters:  map[string]eth2client.SyncCommitteeContributionsSubmitter{},
-		syncCommitteeSubscriptionSubmitters:   map[string]eth2client.SyncCommitteeSubscriptionsSubmitter{},
-	}
+	conc := int64(vnd.IntRange("process-concurrency", n, 3))
 	for i := 0; i < n; i++ {
 		nd := &c08KNode{}
 		nd.name, nd.client = []string{"node-a", "node-b"}[i], "Lodestar/v1"
@@ -88,13 +79,8 @@ func VerifC08_Kinds() {
 			vnd.Assume(nd.latency >= 0 && nd.latency <= 120000)
 		}
 		nodes[i] = nd
-		s.aggregateAttestationsSubmitters[nd.name] = nd
-		s.proposalSubmitters[nd.name] = nd
-		s.beaconCommitteeSubscriptionSubmitters[nd.name] = nd
-		s.proposalPreparationsSubmitters[nd.name] = nd
-		s.syncCommitteeContributionsSubmitters[nd.name] = nd
-		s.syncCommitteeSubscriptionSubmitters[nd.name] = nd
 	}
+	s := c08New(timeout, conc, nodes)
 	aggregates := []*phase0.SignedAggregateAndProof{{Message: &phase0.AggregateAndProof{Aggregate: &phase0.Attestation{Data: &phase0.AttestationData{Slot: 7}}}}, {Message: &phase0.AggregateAndProof{Aggregate: &phase0.Attestation{Data: &phase0.AttestationData{Slot: 7}}}}}
 	proposal := &api.VersionedSignedProposal{Version: spec.DataVersionCapella, Capella: &capella.SignedBeaconBlock{Message: &capella.BeaconBlock{Slot: 7}}}
 	beaconSubs := []*apiv1.BeaconCommitteeSubscription{{Slot: 7}, {Slot: 8}}
